@@ -329,7 +329,7 @@ def _chk_case(o, mode, key, case, acc, seed):
             # the documented positional order (mc/api_defaults.json, from the signatures of the pinned tree): the base call with its
             # arguments passed by position is the base call with keywords
             order = api_defaults().get(o.name, {}).get('positional') or []
-            base = o.variants()[0]
+            base = variant_by_name(o, case.get('variant', 'base'))
             cold, _ = _cold(o, seed, base)
             engine.reset_library_state()
             np.random.seed(4242)
@@ -503,8 +503,10 @@ def t_callhist(arg, acc):
     acc.cls('history:refills', nref)
     for i in range(len(o.bad)):
         chk_case(dict(case0, mode='refused', i=i), acc, seed)
-    if chk_case(dict(case0, mode='positional'), acc, seed) != 'n/a':
-        acc.cls('history:positional')
+    if o.name in api_defaults() and api_defaults()[o.name].get('positional'):
+        for v in V:
+            if chk_case(dict(case0, mode='positional', variant=v[0]), acc, seed) != 'n/a':
+                acc.cls('history:positional')
     for pname in sorted(o.base(seed)):
         if chk_case(dict(case0, mode='listified', param=pname), acc, seed) != 'n/a':
             acc.cls('history:list-inputs')
